@@ -7,6 +7,10 @@
                                                 -> DW_DEFAULT, DW2_DEFAULT
   cmapdb.IdentityCMap.decode / IdentityCMapByte.decode  struct formats ">%dH" / ">%dB"
                                                 -> checked to be big-endian 2-byte / 1-byte (else Untranslatable)
+  cmapdb.CMapParser.do_keyword  `if token is self.KEYWORD_X: self.popall(); return` branches, through the
+  class assignments KEYWORD_X = KWD(b"...")      -> POPALL_KEYWORDS : List String (in source order)
+  pdffont.PDFCIDFont.__init__  self.cidcoding = f"{cid_registry.strip()}-{cid_ordering.strip()}"
+                                                -> CIDCODING_SEP : Bytes (any other shape: Untranslatable)
 """
 import ast
 import os
@@ -81,6 +85,53 @@ def _collection_call(fn: ast.FunctionDef):
     return uses_wmode, ttf_codings
 
 
+def _popall_keywords(cmapdb):
+    """Keywords whose whole handling in CMapParser.do_keyword is `self.popall(); return`."""
+    cls = next((n for n in cmapdb.body if isinstance(n, ast.ClassDef) and n.name == "CMapParser"), None)
+    if cls is None:
+        raise P.Untranslatable("class CMapParser not found")
+    kw = {}
+    for n in cls.body:
+        if (isinstance(n, ast.Assign) and len(n.targets) == 1 and isinstance(n.targets[0], ast.Name)
+                and n.targets[0].id.startswith("KEYWORD_") and isinstance(n.value, ast.Call)
+                and isinstance(n.value.func, ast.Name) and n.value.func.id == "KWD" and len(n.value.args) == 1
+                and isinstance(n.value.args[0], ast.Constant) and isinstance(n.value.args[0].value, bytes)):
+            kw[n.targets[0].id] = n.value.args[0].value.decode("ascii")
+    fn = next((n for n in cls.body if isinstance(n, ast.FunctionDef) and n.name == "do_keyword"), None)
+    if fn is None:
+        raise P.Untranslatable("CMapParser.do_keyword not found")
+    out = []
+    for node in fn.body:
+        if not isinstance(node, ast.If) or node.orelse:
+            continue
+        t = node.test
+        if not (isinstance(t, ast.Compare) and ast.unparse(t.left) == "token" and len(t.ops) == 1
+                and isinstance(t.ops[0], ast.Is) and ast.unparse(t.comparators[0]).startswith("self.KEYWORD_")):
+            continue
+        if [ast.unparse(x) for x in node.body] == ["self.popall()", "return"]:
+            name = ast.unparse(t.comparators[0])[len("self."):]
+            if name not in kw:
+                raise P.Untranslatable("do_keyword: unknown keyword constant " + name)
+            out.append(kw[name])
+    if not out:
+        raise P.Untranslatable("do_keyword: no operand-discarding keywords found")
+    return out
+
+
+def _cidcoding_sep(fn: ast.FunctionDef) -> bytes:
+    for n in ast.walk(fn):
+        if isinstance(n, ast.Assign) and len(n.targets) == 1 and ast.unparse(n.targets[0]) == "self.cidcoding":
+            v = n.value
+            if (isinstance(v, ast.JoinedStr) and len(v.values) == 3 and isinstance(v.values[1], ast.Constant)
+                    and isinstance(v.values[1].value, str)
+                    and isinstance(v.values[0], ast.FormattedValue) and isinstance(v.values[2], ast.FormattedValue)
+                    and ast.unparse(v.values[0].value) == "cid_registry.strip()"
+                    and ast.unparse(v.values[2].value) == "cid_ordering.strip()"):
+                return v.values[1].value.encode("latin1")
+            raise P.Untranslatable("self.cidcoding is not f'{cid_registry.strip()}<sep>{cid_ordering.strip()}'")
+    raise P.Untranslatable("assignment to self.cidcoding not found")
+
+
 def generate(lean_dir: str):
     font = P.parse_file("pdfminer/pdffont.py")
     cmapdb = P.parse_file("pdfminer/cmapdb.py")
@@ -111,6 +162,11 @@ def generate(lean_dir: str):
                "def TTF_CODINGS : List String := [" + ", ".join(P.lean_string(x) for x in ttf_codings) + "]\n\n")
     out.append("/-- does `CMapDB.get_unicode_map(self.cidcoding, …)` receive the writing mode of the encoding CMap? -/\n"
                f"def COLLECTION_MAP_USES_WMODE : Bool := {'true' if uses_wmode else 'false'}\n\n")
+    out.append("/-- keywords of `CMapParser.do_keyword` that only discard the operand stack (source order) -/\n"
+               "def POPALL_KEYWORDS : List String := [" + ", ".join(P.lean_string(x) for x in _popall_keywords(cmapdb))
+               + "]\n\n")
+    out.append("/-- separator of `self.cidcoding = f\"{registry.strip()}<sep>{ordering.strip()}\"` -/\n"
+               "def CIDCODING_SEP : List UInt8 := [" + ", ".join(str(c) for c in _cidcoding_sep(init)) + "]\n\n")
     out.append("end PdfVerif.Gen.CIDFont\n")
     path = os.path.join(lean_dir, "PdfVerif", "Gen", "CIDFont.lean")
     P.write_if_changed(path, "".join(out))
